@@ -202,6 +202,17 @@ func check(c Case) error {
 	}
 	// a render that kills the process (runaway recursion) is attributed to this case by the driver
 	run.Inflight(prop, "random", c)
+	// a render that never returns (cyclic node list under the serialiser; the layout path writes
+	// into a buffer inside the engine, out of reach of the byte budget of render) fails this case
+	// after compose.HangAfter, or as soon as the heap explodes, instead of wedging the shard
+	err := compose.Bounded(func() error { return checkRendered(c, want) })
+	if err != nil && strings.HasPrefix(err.Error(), "render did not return") {
+		err = fmt.Errorf("%v\n%s", err, describe(c))
+	}
+	return err
+}
+
+func checkRendered(c Case, want []*hx.N) error {
 	got, err := render(c)
 	if err != nil {
 		return fmt.Errorf("render failed: %v\n%s", err, describe(c))
@@ -318,6 +329,10 @@ func TestProp(t *testing.T) {
 		rec.Exhaustive(fmt.Sprintf("core: slot sets x fallback x props x loop x twice x every supply form per slot x 2 instances (%d cases) + supplied-but-empty content x every form (%d cases)", n, edge))
 	}
 
+	if compose.Hung() {
+		// a render is still spinning in its goroutine: report what was found and get out
+		return
+	}
 	run.Rapid(t, rec, "random", func(t *rapid.T) Case { return genCase(t, ex, rec) }, classify, check)
 }
 
